@@ -224,6 +224,31 @@ def impl_main(payload):
                     if len(grad) != L or any(abs(a - b) > 1e-6 * (abs(b) + 1e-300) for a, b in zip(grad, want)):
                         orc["viol"].append("%s gradient of %s at a nearly perfect fit (residuals ~1e-10) is %r, the chain rule gives %r (seed %d)"
                                            % (metric, eq, grad.tolist(), np.asarray(want).tolist(), s))
+        # ---- an equation that reproduces the data EXACTLY (residual identically 0): the fitness is the metric of the zero
+        # residual - 0 for MAE/MSE/RMSE, -inf for the marginal likelihood (log 0) - and no other equation does better
+        g = AGraph(equation=eq)
+        L = g.get_number_local_optimization_params()
+        c0 = rs.uniform(-1.5, 1.5, size=L)
+        g.set_local_optimization_params(c0)
+        fx = np.asarray(g.evaluate_equation_at(x), dtype=float).reshape(-1, 1)
+        if np.all(np.isfinite(fx)) and np.all(np.abs(fx) > 1e-6):
+            g2 = AGraph(equation=eq)
+            g2.set_local_optimization_params(c0 + 0.37)
+            for metric in ("mae", "mse", "rmse", "negative nmll laplace"):
+                for rel in (False, True):
+                    fit = ExplicitRegression(ExplicitTrainingData(x.copy(), fx.copy()), metric=metric, relative=rel)
+                    with np.errstate(all="ignore"):
+                        v_exact = float(fit(g))
+                        v_other = float(fit(g2)) if L > 0 else None
+                    want = float("-inf") if metric == "negative nmll laplace" else 0.0
+                    orc["checks"] += 1
+                    if not v_exact == want:
+                        orc["viol"].append("%s%s fitness of %s with constants %r on the data it reproduces exactly (zero residual) is %r, "
+                                           "the metric of the zero residual is %r (x seed %d)"
+                                           % (metric, " relative" if rel else "", eq, c0.tolist(), v_exact, want, s))
+                    elif v_other is not None and not math.isnan(v_other) and v_other < v_exact:
+                        orc["viol"].append("%s%s: %s with other constants scores %r, below the exact fit's %r (seed %d)"
+                                           % (metric, " relative" if rel else "", eq, v_other, v_exact, s))
         if len(orc["samples"]) < 2:
             orc["samples"].append(dict(seed=s, equation=eq, points=m))
     return dict(results=results, oracle=orc)
@@ -249,7 +274,8 @@ def check(rep, proof):
              "with Model/Explicit.v incl. the evaluation counter; half of the cases switch use_linear_correction on, with scipy's "
              "linregress replaced by a stand-in returning a chosen slope / intercept (quarters) or raising ValueError - the model "
              "takes them as an oracle; oracle: 6 real AGraph equations x 4 metrics x absolute/relative, "
-             "fitness against an independent formula and gradient against central finite differences, before and after the "
+             "fitness against an independent formula and gradient against central finite differences, on data the equation reproduces "
+             "exactly (zero residual: 0, or -inf for the marginal likelihood, and nothing scores lower), before and after the "
              "training data is replaced by a same-sized set",
         samples=[cases[0]] + orc["samples"],
         correspondence=dict(cases=len(cases), disagreements=len(bad)),
